@@ -241,6 +241,8 @@ def run(res, programs, tier):
                 else:
                     res.fail("R13.2", cfgname, key, "inv_large decides invertibility without the length of the gcd returned by gcd_ext_in_place: a multi-word gcd whose lowest word is 1 would be taken for 1 and inv() would return Some for a non-invertible element", span_loc(f["sp"]))
         _r13_4(res, P, cfgname)
+        from . import c15
+        c15._r15_4b(res, P, cfgname)     # shared: Reduced::clone_from must also copy the ring reference
         # ---- R13.3b constructors
         ctor_ok = {M + "Reduced::<'a>::from_single", M + "Reduced::<'a>::from_double", M + "Reduced::<'a>::from_large"}
         nct = 0
